@@ -682,6 +682,11 @@ var solvers = []solverSpec{
 	{"z3-new-5.1.0", func(f string, t int) []string {
 		return []string{"z3-new", fmt.Sprintf("-T:%d", t), "-smt2", f}
 	}, ""},
+	// the same solver without array extensionality axioms (they make z3 5.1 diverge on heaps of arrays of
+	// arrays): a weaker theory, so its "unsat" is sound; its "sat" is not used (see unsatOnly)
+	{"z3-new-5.1.0-noext", func(f string, t int) []string {
+		return []string{"z3-new", fmt.Sprintf("-T:%d", t), "smt.array.extensional=false", "-smt2", f}
+	}, ""},
 	{"z3-4.8.12", func(f string, t int) []string {
 		return []string{"/usr/bin/z3", fmt.Sprintf("-T:%d", t), "-smt2", f}
 	}, ""},
@@ -689,6 +694,9 @@ var solvers = []solverSpec{
 		return []string{"cvc5", fmt.Sprintf("--tlimit=%d", t*1000), "--lang=smt2", "--produce-models", "--strings-exp", f}
 	}, "(set-logic ALL)\n"},
 }
+
+// unsatOnly: solver configurations that decide a weaker theory; only their "unsat" answers count
+var unsatOnly = map[string]bool{"z3-new-5.1.0-noext": true}
 
 var solverSem = make(chan struct{}, 16)
 
@@ -756,6 +764,8 @@ func solveRace(workdir, name, query string, timeoutSec int, useSolvers []string)
 			switch {
 			case first == "unsat":
 				r.Status = "unsat"
+			case first == "sat" && unsatOnly[sp.name]:
+				r.Status = "unknown"
 			case first == "sat":
 				r.Status = "sat"
 				r.Values = parseGetValue(string(out))
